@@ -43,7 +43,17 @@ Lemma tie_C07 :
        "time.Now().UnixNano"; "time.Now"; "case"; "ctx.Done"; "recv ctx.Done()"; "tick.Stop"; "return"; "}"; "}"]%string
   /\ chan_sends_client = [("Conn.Raw", "conn.out"); ("Conn.recv", "conn.in")]%string
   /\ lits_client_Conn_postConnect = [LInt 3%Z; LInt 0%Z; LInt 1%Z]
-  /\ lits_client_Conn_initialise = [LInt 32%Z; LInt 32%Z] /\ qcap = 32.
+  /\ lits_client_Conn_initialise = [LInt 32%Z; LInt 32%Z] /\ qcap = 32
+  (* ... and the CONDITIONS, as source text: the identity test and the drain loop of closeIf, ping
+     iff PingFreq > 0, the error tests after which send / recv leave the wait group and close *)
+  /\ conds_client_Conn_closeIf
+    = ["!conn.connected || (rw != nil && rw != conn.io)"; "conn.die != nil"; "for !drained"]%string
+  /\ conds_client_Conn_postConnect = ["start"; "conn.cfg.PingFreq > 0"]%string
+  /\ conds_client_Conn_send = ["err != nil"]%string
+  /\ conds_client_Conn_recv = ["err != nil"; "err != io.EOF"; "line != nil"]%string
+  /\ conds_client_Conn_runLoop = [] /\ conds_client_Conn_ping = [] /\ conds_client_Conn_Raw = []
+  /\ conds_client_Conn_write
+    = ["!conn.cfg.Flood"; "t != 0"; "err != nil"; "err != nil"; "strings.HasPrefix(line, ""PASS"")"]%string.
 Proof. repeat split; vm_compute; reflexivity. Qed.
 
 Notation reach hm hl w sched := (run (fstep hm hl) (init w) sched).
